@@ -1,6 +1,7 @@
 import Rfsm.Model.Wire
 import Driver.Desc
 import Driver.Int
+import Driver.Http
 /-!
 The model driver: one request per line on stdin, one reply per line on stdout.
 `<family> <op> <args…>`; payload strings are hex encoded.  Unknown or malformed requests answer
@@ -12,6 +13,7 @@ def dispatch (line : String) : String :=
   match words line with
   | "desc" :: rest => Driver.Desc.handle rest
   | "int" :: rest => Driver.Int.handle rest
+  | "http" :: rest => Driver.Http.handle rest
   | ["ping"] => "pong"
   | _ => "bad-op"
 
